@@ -9,6 +9,7 @@ import (
 	"fmt"
 	"io"
 	"net"
+	"runtime"
 	"sync"
 	"sync/atomic"
 	"time"
@@ -297,9 +298,15 @@ type countConn struct {
 	writes *atomic.Int64
 }
 
+// Write counts the call and then yields, the way a TLS record layer or any
+// other wrapper may: a reply that is not handed over in ONE Write can then be
+// interleaved with another goroutine's reply.
 func (c countConn) Write(p []byte) (int, error) {
 	c.writes.Add(1)
-	return c.Conn.Write(p)
+	n, err := c.Conn.Write(p)
+	runtime.Gosched()
+	time.Sleep(20 * time.Microsecond)
+	return n, err
 }
 
 type countListener struct {
